@@ -153,6 +153,22 @@ Theorem C11_main_exit_cancels :
 Proof. exact main_exits_cancel. Qed.
 Print Assumptions C11_main_exit_cancels.
 
+(* recvFileDataV2 waits for the saver's own size check before it reports a file as received
+   (`<-saveDone`, then `if ctx.Err() != nil`): a wait for a channel that only the saver's exit
+   closes, in the arm that received the success signal; wf (W3) covers it, so A + B hold *)
+Theorem C11_recv_waits_for_saver :
+  capof recv_net ch_recv_SaveData_1 = 0 /\ sender recv_net ch_recv_SaveData_1 = None /\
+  existsb (Nat.eqb ch_recv_SaveData_1) (defer_close (info recv_net p_recv_SaveData)) = true /\
+  closer_ok recv_net p_recv_main ch_recv_SaveData_1 = true /\
+  count (is_recvclose ch_recv_SaveData_1) (all_stmts (info recv_net p_recv_main)) = 1 /\
+  underL ch_recv_recvFileDataV2_0 ch_recv_SaveData_1 (body (info recv_net p_recv_main)) = true /\
+  body (info recv_net p_recv_main) =
+    [ Sel [ (RecvAlt ch_recv_recvFileDataV2_0,
+             [ RecvClose ch_recv_SaveData_1; IfCtxExit; RecvClose ch_recv_CalculateMD5_0; Return ]);
+            (DoneAlt, [ Return ]) ] ].
+Proof. exact recv_main_waits_for_saver. Qed.
+Print Assumptions C11_recv_waits_for_saver.
+
 (* ---- a side that can still talk tells its peer why ---- *)
 (* transfer.go clientError / serverError, interpreted from their REGENERATED skeletons
    (Gen/Skel_errtell.v), for EVERY error class [e] (is it a *trzszError, its errType class, its
